@@ -172,7 +172,33 @@ def judge(acc, case, producer, eng, d, M, rb, cb, I, D, psi, md, pyM=None):
     return bool(neg)
 
 
+def resolve_max_dist(case):
+    """'tight' / 'mid' -> a threshold in a gap of this case's own cell values: just above the distance / in the middle of
+    the cell values (never within rounding distance of a cell value)."""
+    sym = case.get('max_dist')
+    if sym not in ('tight', 'mid'):
+        return case
+    I, D, psi, _ = reference(dict(case, max_dist=None))
+    r, c = len(case['s1']), len(case['s2'])
+    d = oracles.cells_value(D, r, c, psi)
+    vals = sorted(set(I.result(v) for v in D.values() if v < inf))
+    if not vals:
+        return dict(case, max_dist=None)
+    gaps = [(a, b) for a, b in zip(vals, vals[1:]) if b - a > 1e-6 * max(1.0, b)]
+    if sym == 'tight' and d < inf:
+        dv = I.result(d)
+        above = [b for a, b in gaps if a >= dv - 1e-12]
+        m = (dv + above[0]) / 2.0 if above else dv + 0.75
+    elif gaps:
+        a, b = gaps[len(gaps) // 2]
+        m = (a + b) / 2.0
+    else:
+        m = vals[-1] + 0.75
+    return dict(case, max_dist=m)
+
+
 def check_case(acc, E, case, slices=False):
+    case = resolve_max_dist(case)
     I, D, psi, md = reference(case)
     r, c = len(case['s1']), len(case['s2'])
     keep = bool(case.get('keep_int_repr'))
@@ -248,6 +274,7 @@ def universe(tier, seed, shard, nshards):
                                 for md in (None, 1.6):
                                     yield 'U1-values', False, dict(base, max_dist=md, keep_int_repr=False, psi_neg=True)
                                     yield 'U1-values', False, dict(base, max_dist=md, keep_int_repr=True, psi_neg=False)
+                                yield 'U1-values', False, dict(base, max_dist='tight', keep_int_repr=False, psi_neg=True)
                                 if thorough:
                                     yield 'U1-values', False, dict(base, max_dist=0.9, keep_int_repr=True, psi_neg=True)
                                     yield 'U1-values', False, dict(base, max_dist=2.2, keep_int_repr=False, psi_neg=False)
@@ -270,7 +297,7 @@ def universe(tier, seed, shard, nshards):
                         if oracles.psi_degenerate(p, r, c) or max(p[:2]) > r or max(p[2:]) > c:
                             continue
                     for (k1, k2) in (cat if not do_slices else cat[:3]):
-                        for pen, ms, md in ((None, None, None), (0.5, None, None), (None, 1.2, None), (None, None, 2.2)):
+                        for pen, ms, md in ((None, None, None), (0.5, None, None), (None, 1.2, None), (None, None, 2.2), (None, None, 'tight'), (0.5, None, 'mid')):
                             if do_slices and (ms or md):
                                 continue
                             yield ('U2-slices' if do_slices else 'U3-shapes'), do_slices, {
@@ -294,9 +321,9 @@ def universe(tier, seed, shard, nshards):
                         if oracles.psi_degenerate(p, r, c) or max(p[:2]) > r or max(p[2:]) > c:
                             continue
                     for (k1, k2) in ((0, 3), (5, 0)):
-                        for pen in (None, 0.5):
+                        for pen, md in ((None, None), (0.5, None), (None, 'tight')):
                             yield 'U5-long', False, {'s1': univ.catalogue(r, A, k1), 's2': univ.catalogue(c, A, k2), 'window': w, 'penalty': pen, 'psi': psi,
-                                                     'max_step': None, 'max_dist': None, 'inner': 'sq' if (r + c) % 2 else 'eu', 'keep_int_repr': bool(r % 2), 'psi_neg': True}
+                                                     'max_step': None, 'max_dist': md, 'inner': 'sq' if (r + c) % 2 else 'eu', 'keep_int_repr': bool(r % 2), 'psi_neg': True}
     # multivariate
     A2 = univ.alphabet(univ.BASE2, seed)
     sers2 = univ.series_nd(A2, 2, 1, 2)
@@ -340,7 +367,7 @@ def run(ctx):
         rule='every case x producers {Python warping_paths, C full matrix, C compact+expand, C compact + every slice (small shapes)}; every cell compared with the reference '
              'table of per-cell optima under the freedoms C04 names; returned distance compared with the distance-only routine; non-trivial = band excludes cells or -1 marks present',
         bounds={'alphabet': list(univ.alphabet(univ.BASE3, ctx.seed)),
-                'U1': 'all pairs len 1..3 (1..4 in thorough) x window{None,1,2} x penalty x max_step x inner x 9 psi forms x max_dist{None,1.6%s} x (keep_int_repr,psi_neg) in {(F,T),(T,F)}' % (',0.9,2.2' if ctx.thorough else ''),
+                'U1': 'all pairs len 1..3 (1..4 in thorough) x window{None,1,2} x penalty x max_step x inner x 9 psi forms x max_dist{None,1.6,tight = in the gap just above the distance%s} x (keep_int_repr,psi_neg) in {(F,T),(T,F)}' % (',0.9,2.2' if ctx.thorough else ''),
                 'U2': 'shapes up to %dx%d: every slice [rb:re, cb:ce] of the full matrix, every window, 7 psi forms' % ((5, 4) if ctx.thorough else (4, 3)),
                 'U3': 'all shapes up to %d x every window x catalogue values' % (7 if ctx.thorough else 5),
                 'U4': 'ndim 2, len 1..2', 'U5': 'long thin bands: every shape up to %s with max >= 7, windows %s, %d psi forms' % (('18x18', '1..5', 13) if ctx.thorough else ('12x12', '1..3', 6))},
